@@ -131,6 +131,29 @@ def run_batch(job):
             raise Machinery("endpoint did not reach SELECTED")
         for tid, kind, sseed, segs in items:
             rng = random.Random(sseed)
+            if kind.startswith("reconnect:"):
+                # the previous connection ended inside a frame: none of its bytes belong to the new connection's stream
+                kind = kind.split(":", 1)[1]
+                pre = b"".join(f for f, _ in make_stream("mixed", random.Random(sseed + 1)))
+                cut = rng.choice([1, 2, 3, 4, 5, 9, 13, 14, 15, 20])
+                ep.link.feed(pre[:cut])
+                s.settle()
+                n0 = ep.link.closed_count
+                ep.link.peer_close()
+                okc, whyc = s.run_until(lambda: ep.link.closed_count > n0 and ep.cs == "NC", max_dt=30)
+                if not okc:
+                    raise Machinery(f"close did not finish in the C04 reconnect item: {whyc}")
+                ep.link.on_send_hook = None
+                ep.link.connect()
+                s.settle()
+                ep.link.feed(link.hsms_frame(stype=1, system=2))
+                s.settle()
+                ep.link.take_frames()
+                ep.link.on_send_hook = on_send
+                if ep.cs != "SEL":
+                    out.append({"id": tid, "lens": [1], "segs": [1], "obs": [[0]], "kind": "reconnect", "sseed": sseed, "sched": [seed, policy],
+                                "not_selected_after_reconnect": True})
+                    return
             frames = make_stream(kind, rng)
             stream = b"".join(f for f, _ in frames)
             if segs is None:
@@ -220,6 +243,8 @@ def run(ctx: Ctx):
                     add(kind, 0, ([a] if a else []) + [k, total - a - k])
     for i in range(300 if ctx.quick else 4000):
         add("random", rng.randrange(1 << 30), None)
+    for i in range(40 if ctx.quick else 400):
+        add("reconnect:random", rng.randrange(1 << 30), None)
     jobs = []
     for b, ch in enumerate(chunks(items, 28 if ctx.quick else 56)):
         pol = ["fifo", "random", "pct"][b % 3]
@@ -246,7 +271,10 @@ def run(ctx: Ctx):
         v = verd[t["id"]]
         if t["id"] in (3, 40):
             ctx.sample({"lens": t["lens"], "segs": t["segs"][:12], "delivered_after_each_segment": t["obs"][:12]})
-        if not v["ok"]:
+        if t.get("not_selected_after_reconnect"):
+            ctx.violation({"check": "segmentation", "kind": "reconnect", "what": "after a connection that ended inside a frame the next connection's "
+                           "Select.req was not answered (endpoint not SELECTED)", "sched": t["sched"]})
+        elif not v["ok"]:
             ctx.violation({"check": "segmentation", "kind": t["kind"], "lens": t["lens"], "segs": t["segs"], "at": v["at"],
                            "observed": t["obs"][v["at"] - 1], "want_count": v["want"], "sseed": t["sseed"],
                            "sched": t["sched"],
@@ -260,7 +288,7 @@ def run(ctx: Ctx):
     c04_trace.check(ctx, wd, pmap)
     ctx.rule = ("codec: boundary universe of header fields x body lengths; reassembly: all partitions with <= 3 segments of two "
                 "fixed streams (data + Linktest.req frames), single-byte and one-shot partitions, random partitions of random "
-                "streams, under fifo/random/PCT thread schedules; distinct = distinct (frame lengths, partition); every Event / Queue "
+                "streams (also right after a connection that ended inside a frame), under fifo/random/PCT thread schedules; distinct = distinct (frame lengths, partition); every Event / Queue "
                 "operation of the receiver and dispatcher threads in 90 (900) further runs validated by TLC as a behaviour of DispatcherLoops")
     ctx.assumptions += ["frames with SType outside E37's table are outside the property"]
     return ctx.finish()
